@@ -807,13 +807,12 @@ impl<const N: usize> Context<N> {
 }
 
 //@@ octo-squirrel/src/codec/shadowsocks/tcp.rs:61-65  struct AEADCipherCodec  sha=b91e742ceaa32d23
-#[derive(Default)]
 pub struct AEADCipherCodec<const N: usize> {
     encoder: Option<ChunkEncoder>,
     decoder: Option<ChunkDecoder>,
 }
 
-//@@ octo-squirrel/src/codec/shadowsocks/tcp.rs:67-246  impl AEADCipherCodec  sha=6f58a201081879b2
+//@@ octo-squirrel/src/codec/shadowsocks/tcp.rs:67-253  impl AEADCipherCodec  sha=cd3f85772c271d88
 impl<const N: usize> AEADCipherCodec<N> {
     fn encode(&mut self, context: &Context<N>, session: &Session<N>, mut item: BytesMut, dst: &mut BytesMut) -> anyhow::Result<()> {
         match self.encoder {
@@ -886,7 +885,14 @@ impl<const N: usize> AEADCipherCodec<N> {
             Some(ref mut decoder) => {
                 let mut dst = BytesMut::new();
                 decoder.decode_payload(src, &mut dst).map_err(|e| verif_err())?;
-                if dst.is_empty() { Ok(None) } else { Ok(Some(dst)) }
+                if dst.is_empty() {
+                    return Ok(None);
+                }
+                if matches!(session.mode, Mode::Server) && session.address.is_none() {
+                    // a request sealed with one of the original AEAD ciphers starts with the target address
+                    session.address = Some(address__decode(&mut dst)?);
+                }
+                Ok(Some(dst))
             }
             None => self.init_payload_decoder(context, session, src, Tracked(vcache)),
         }
@@ -995,21 +1001,21 @@ impl<const N: usize> AEADCipherCodec<N> {
     }
 }
 
-//@@ octo-squirrel/src/codec/shadowsocks/tcp.rs:248-255  struct Session  sha=1392850d69a201bf
+//@@ octo-squirrel/src/codec/shadowsocks/tcp.rs:255-262  struct Session  sha=1392850d69a201bf
 pub struct Session<const N: usize> {
     mode: Mode,
     identity: Identity<N>,
     pub address: Option<Address>,
     }
 
-//@@ octo-squirrel/src/codec/shadowsocks/tcp.rs:257-261  impl Session  sha=21df35fa41e24243
+//@@ octo-squirrel/src/codec/shadowsocks/tcp.rs:264-268  impl Session  sha=21df35fa41e24243
 impl<const N: usize> Session<N> {
     fn new(mode: Mode, identity: Identity<N>, address: Option<Address>) -> Self {
         Self { mode, identity, address }
     }
 }
 
-//@@ octo-squirrel/src/codec/shadowsocks/tcp.rs:263-267  struct Identity  sha=1d0a7a0e004ea6f4
+//@@ octo-squirrel/src/codec/shadowsocks/tcp.rs:270-274  struct Identity  sha=1d0a7a0e004ea6f4
 pub struct Identity<const N: usize> {
     pub salt: [u8; N],
     pub request_salt: Option<[u8; N]>,
@@ -1470,3 +1476,111 @@ fn a22udp__new_cipher(kind: CipherKind, key: &[u8], session_id: u64) -> CipherMe
         _ => verif_panic(),
     }
 }
+
+//@@ octo-squirrel-server/src/server/template.rs:39-43  mod message / enum InboundIn  sha=900b92278fa20e17
+pub enum InboundIn {
+        ConnectTcp(BytesMut, Address),
+        RelayTcp(BytesMut),
+        RelayUdp(BytesMut, Address),
+    }
+
+//@@ octo-squirrel-server/src/server/template.rs:71-74  mod message / enum OutboundIn  sha=8f4f430e0a7dd220
+pub enum OutboundIn {
+        Tcp(BytesMut),
+        Udp((BytesMut, SocketAddr)),
+    }
+
+//@@ octo-squirrel-server/src/server/template.rs:76-83  mod message / impl From for BytesMut  sha=836a0617d15043fc
+impl From<OutboundIn> for BytesMut {
+        fn from(value: OutboundIn) -> Self {
+            match value {
+                OutboundIn::Tcp(bytes) => bytes,
+                OutboundIn::Udp((bytes, _)) => bytes,
+            }
+        }
+    }
+
+//@@ octo-squirrel-server/src/server/shadowsocks.rs:323-328  mod tcp / struct PayloadCodec  sha=0a0deb8ebe3d5147
+pub struct sssrv__PayloadCodec<const N: usize> {
+        context: Arc<Context<N>>,
+        session: Session<N>,
+        cipher: AEADCipherCodec<N>,
+        state: sssrv__State,
+    }
+
+//@@ octo-squirrel-server/src/server/shadowsocks.rs:330-333  mod tcp / enum State  sha=d8ea95c44e9c2239
+enum sssrv__State {
+        Header,
+        Body,
+    }
+
+//@@ octo-squirrel-server/src/server/shadowsocks.rs:335-340  mod tcp / impl PayloadCodec  sha=f3c70b3003054fc0
+impl<const N: usize> sssrv__PayloadCodec<N> {
+        fn new(context: Arc<Context<N>>, mode: Mode, address: Option<Address>) -> Self {
+            let session = Session::new(mode, Identity::default(), address);
+            Self { context, session, cipher: AEADCipherCodec::default(), state: sssrv__State::Header }
+        }
+    }
+
+//@@ octo-squirrel-server/src/server/shadowsocks.rs:342-348  mod tcp / impl Encoder for PayloadCodec  sha=b2d35db0ddf93f3b
+impl<const N: usize> sssrv__PayloadCodec<N> {
+
+        fn encode(&mut self, item: OutboundIn, dst: &mut BytesMut) -> Result<()> {
+            self.cipher.encode(&self.context, &self.session, item.into(), dst)
+        }
+    }
+
+//@@ octo-squirrel-server/src/server/shadowsocks.rs:350-374  mod tcp / impl Decoder for PayloadCodec  sha=55359f5fea8781a0
+impl<const N: usize> sssrv__PayloadCodec<N> {
+
+        fn decode(&mut self, src: &mut BytesMut, Tracked(vcache): Tracked<&mut SaltCache>) -> Result<Option<InboundIn>> {
+            match self.state {
+                sssrv__State::Header => {
+                    if let (Some(dst), Some(addr)) = (self.cipher.decode(&self.context, &mut self.session, src, Tracked(vcache))?, self.session.address.as_ref()) {
+                        self.state = sssrv__State::Body;
+                        Ok(Some(InboundIn::ConnectTcp(dst, addr.clone())))
+                    } else {
+                        Ok(None)
+                    }
+                }
+                sssrv__State::Body => {
+                    if let Some(dst) = self.cipher.decode(&self.context, &mut self.session, src, Tracked(vcache))? {
+                        Ok(Some(InboundIn::RelayTcp(dst)))
+                    } else {
+                        Ok(None)
+                    }
+                }
+            }
+        }
+    }
+
+//@@ octo-squirrel-client/src/client/shadowsocks.rs:44-48  mod tcp / struct PayloadCodec  sha=be10452486820427
+pub struct sscli__PayloadCodec<const N: usize> {
+        context: Arc<Context<N>>,
+        session: Session<N>,
+        cipher: AEADCipherCodec<N>,
+    }
+
+//@@ octo-squirrel-client/src/client/shadowsocks.rs:50-55  mod tcp / impl PayloadCodec  sha=1a5bada84bd768b5
+impl<const N: usize> sscli__PayloadCodec<N> {
+        fn new(context: Arc<Context<N>>, mode: Mode, address: Option<Address>) -> Self {
+            let session = Session::new(mode, Identity::default(), address);
+            Self { context, session, cipher: AEADCipherCodec::default() }
+        }
+    }
+
+//@@ octo-squirrel-client/src/client/shadowsocks.rs:57-63  mod tcp / impl Encoder for PayloadCodec  sha=084270b11ca15a42
+impl<const N: usize> sscli__PayloadCodec<N> {
+
+        fn encode(&mut self, item: BytesMut, dst: &mut BytesMut) -> Result<()> {
+            self.cipher.encode(&self.context, &self.session, item, dst)
+        }
+    }
+
+//@@ octo-squirrel-client/src/client/shadowsocks.rs:65-73  mod tcp / impl Decoder for PayloadCodec  sha=6a2d8f9dab0196ba
+impl<const N: usize> sscli__PayloadCodec<N> {
+
+        fn decode(&mut self, src: &mut BytesMut, Tracked(vcache): Tracked<&mut SaltCache>) -> Result<Option<BytesMut>> {
+            self.cipher.decode(&self.context, &mut self.session, src, Tracked(vcache))
+        }
+    }
